@@ -40,7 +40,7 @@ F_OUTER = 'outer-join-filter-pushdown'
 F_REF = 'reference-shares-table-segment'
 
 # family, Depth, MaxRows, WithNull, tables of the universe
-QUICK = [('where', 1, 2, True, 2), ('on', 1, 2, True, 2), ('self', 1, 2, True, 2), ('three', 1, 1, True, 3)]
+QUICK = [('where', 1, 1, True, 2), ('on', 1, 2, False, 2), ('self', 1, 2, False, 2), ('three', 1, 1, True, 3)]
 THOROUGH = [('where', 1, 2, True, 2), ('on', 1, 2, True, 2), ('self', 2, 2, True, 2), ('three', 1, 2, False, 3),
             ('wheresmall', 2, 2, False, 2), ('onsmall', 2, 2, False, 2)]
 TABLES2 = [['A', 2], ['B', 1]]
@@ -89,7 +89,7 @@ def judge_hints(chk, obs, universe, dbs, tag, batch):
         sizes.append(len(chunk))
     out = []
     for res, size, env in zip(C06.run_tlc_parallel(chk, 'TraceHints', 'TraceHints.cfg', envs), sizes, envs):
-        got = {v[0]: v[1:] for v in res.tuples('VERDICT')}
+        got = {v[0]: v[1:] for v in relgen.printed_tuples(res.stdout, 'VERDICT')}
         if len(got) != size or any(len(v) != 9 for v in got.values()):
             raise tlc.MachineryError(f'TraceHints: expected {size} verdicts of 9 fields, got {len(got)}\n{res.stdout[-2500:]}')
         out += [got[i] for i in range(1, size + 1)]
@@ -219,7 +219,9 @@ def _observe(task):
     idx, ast, dbis = task
     rec = relgen.record_hints(ast)
     runs = []
-    if rec['res'] == 'ok':
+    # the SQL of statements with a cross join / Not / Abs is wrong whatever the hints (C06 findings of the alchemy
+    # reader): their hints are judged, but they are not executed (decided on the statement alone)
+    if rec['res'] == 'ok' and not ({'not', 'abs'} & relgen.ops_in(ast)) and 'cross' not in relgen.join_kinds(ast):
         for di in dbis:
             plain = relgen.observe(ast, _ENG[di])['outs'][0]
             hinted = relgen.run_hinted(ast, rec['hints'], _ENG[di].conns['sqlite'])
@@ -329,6 +331,8 @@ def main(chk):
                'host a substituted selectable in generate_table because element code stays bound to the resolved table')
     chk.assume('statements whose parsing raises offer no hints: the exception is property C06\'s subject, not C14\'s')
     chk.assume('limit/offset windows are stripped before judging Safe (a window picks rows by position)')
+    chk.assume('statements with a cross join / Not / Abs are not EXECUTED with honoured hints (their SQL is wrong whatever '
+               'the hints: C06 findings); their recorded hints are still judged by TLC')
 
 
 def replay(chk, path):
